@@ -2,8 +2,5 @@
 
 package verifsim
 
-func (s *Sim) checkReports(ctx *StepCtx)     {}
 func (s *Sim) checkBuffers(ctx *StepCtx)     {}
 func (s *Sim) checkPerio(ctx *StepCtx)       {}
-func (s *Sim) checkTranslation(ctx *StepCtx) {}
-func (s *Sim) finalReports()                 {}
